@@ -62,6 +62,13 @@ func TestC18(t *testing.T) {
 		set := faults.NewSet(fmt.Sprintf("v%d_%d", Seed(), k))
 		var lineOps, got []string
 		nAdded := 0
+		// independent bookkeeping of what was injected: (operation, parameters, remaining count)
+		type inj struct {
+			op     string
+			params map[string]string
+			left   int64
+		}
+		var injected []*inj
 		for i := 0; i < 6+r.Intn(25); i++ {
 			switch r.Intn(6) {
 			case 0, 1:
@@ -72,6 +79,7 @@ func TestC18(t *testing.T) {
 					OnFault: func(d faults.Description, p faults.Parameters) error { return firedErr{idx} }})
 				lineOps = append(lineOps, "add~"+Enc(op)+"~"+MapStr(ps)+"~"+fmt.Sprint(cnt))
 				got = append(got, "ok")
+				injected = append(injected, &inj{op, ps, cnt})
 			case 5:
 				cur := set.Current()
 				var names []string
@@ -99,6 +107,36 @@ func TestC18(t *testing.T) {
 				}
 				lineOps = append(lineOps, "check~"+Enc(op)+"~"+MapStr(ps))
 				got = append(got, res)
+				// independent monitor: a call is failed only through a fault for this operation whose every
+				// parameter is present in the call with the same value, and which has injections left;
+				// and a call matching a fault with injections left is failed
+				matches := func(j *inj) bool {
+					if j.op != op {
+						return false
+					}
+					for k2, v := range j.params {
+						if pv, ok := ps[k2]; !ok || pv != v {
+							return false
+						}
+					}
+					return true
+				}
+				if errors.As(err, &fe) {
+					j := injected[fe.idx]
+					if !matches(j) {
+						violate("fired-nonmatching", fmt.Sprintf("call %s%v was failed through the fault {%s %v}, which it does not match", op, ps, j.op, j.params), true, strings.Join(lineOps, ";"))
+					} else if j.left <= 0 {
+						violate("fired-exhausted", fmt.Sprintf("call %s%v was failed through the fault {%s %v} that had no injections left", op, ps, j.op, j.params), true, strings.Join(lineOps, ";"))
+					}
+					j.left--
+				} else if err == nil {
+					for _, j := range injected {
+						if matches(j) && j.left > 0 {
+							violate("not-fired", fmt.Sprintf("call %s%v matches the fault {%s %v} with %d injections left but was not failed", op, ps, j.op, j.params, j.left), true, strings.Join(lineOps, ";"))
+							break
+						}
+					}
+				}
 			}
 		}
 		line := "faults ops=" + strings.Join(lineOps, ";")
